@@ -180,6 +180,25 @@ func (o *Origins) walk(v ssa.Value, path []string, conv bool, seen map[ssa.Value
 		case *ssa.FieldAddr:
 			o.walk(a.X, append([]string{fieldName(a)}, path...), conv, seen, out, depth+1)
 		case *ssa.IndexAddr:
+			// an element of a slice literal built here (`[]T{a, b, c}` ranged over): the union of its elements
+			if arr := localArrayLiteral(a.X); arr != nil {
+				n := 0
+				for _, ref := range *arr.Referrers() {
+					ia2, ok := ref.(*ssa.IndexAddr)
+					if !ok || ia2.X != ssa.Value(arr) {
+						continue
+					}
+					for _, r2 := range *ia2.Referrers() {
+						if st, ok := r2.(*ssa.Store); ok && st.Addr == ssa.Value(ia2) {
+							o.walk(st.Val, path, conv, seen, out, depth+1)
+							n++
+						}
+					}
+				}
+				if n > 0 {
+					return
+				}
+			}
 			o.walk(a.X, append([]string{"[]"}, path...), conv, seen, out, depth+1)
 		case *ssa.Alloc:
 			// a local variable cell: union over the values stored into it
@@ -246,3 +265,26 @@ func isPointerLike(t types.Type) bool {
 }
 
 var plainOrigins = &Origins{}
+
+// localArrayLiteral: v is (a slice of) an array allocated in this function that is only indexed and sliced,
+// i.e. the backing store of a composite literal. Returns the allocation.
+func localArrayLiteral(v ssa.Value) *ssa.Alloc {
+	if sl, ok := v.(*ssa.Slice); ok {
+		v = sl.X
+	}
+	a, ok := v.(*ssa.Alloc)
+	if !ok {
+		return nil
+	}
+	if _, isArr := deref(a.Type()).Underlying().(*types.Array); !isArr {
+		return nil
+	}
+	for _, ref := range *a.Referrers() {
+		switch ref.(type) {
+		case *ssa.IndexAddr, *ssa.Slice, *ssa.DebugRef:
+		default:
+			return nil
+		}
+	}
+	return a
+}
